@@ -26,7 +26,12 @@ var ceCodes = []int16{ErrNotLeaderForPartition, ErrLeaderNotAvailable, ErrReques
 // faults: 0..len(codes)-1 = kafka error code in the response; then framing faults
 var ceFraming = []string{"cut-mid", "garbage-size", "wrong-correlation-id"}
 
-func ConnErrCases() int { return ceOps * ceCfgs * (len(ceCodes) + len(ceFraming)) * ceFollow }
+// ceFields: which error field of the response carries the code: 0 = the
+// innermost one (partition / topic entry), 1 = the next one up (fetch:
+// top-level error_code of v7+; metadata: partition-level inside the topic)
+const ceFields = 2
+
+func ConnErrCases() int { return ceOps * ceCfgs * (len(ceCodes) + len(ceFraming)) * ceFollow * ceFields }
 
 type ceEnv struct {
 	s    *Sim
@@ -133,7 +138,28 @@ func (e *ceEnv) doOp(op int, tag string) (err error, wrong string) {
 	return
 }
 
-func setErrorCode(api int16, body rc.Msg, code int16) {
+// setErrorCode places code in the chosen error field; it reports false when
+// that field does not exist for this api / version (case not applicable).
+func setErrorCode(api, version int16, body rc.Msg, code int16, field int) bool {
+	if field == 1 {
+		switch api {
+		case 1:
+			if version < 7 {
+				return false
+			}
+			body["error_code"] = code
+			body["responses"] = []rc.Msg{}
+			return true
+		case 3:
+			for _, t := range body.Arr("topics") {
+				for _, p := range t.Arr("partitions") {
+					p["error_code"] = code
+				}
+			}
+			return true
+		}
+		return false
+	}
 	switch api {
 	case 0:
 		for _, t := range body.Arr("responses") {
@@ -173,6 +199,7 @@ func setErrorCode(api int16, body rc.Msg, code int16) {
 			t["error_code"] = code
 		}
 	}
+	return true
 }
 
 func connerrScenario(s *Sim, params map[string]string) {
@@ -184,6 +211,8 @@ func connerrScenario(s *Sim, params map[string]string) {
 	// per `total` consecutive runs, in a seed-dependent order
 	idx := int((s.T.Run*7919 + s.T.Seed*104729) % uint64(total))
 	x := idx
+	field := x % ceFields
+	x /= ceFields
 	follow := x % ceFollow
 	x /= ceFollow
 	fault := x % (len(ceCodes) + len(ceFraming))
@@ -218,24 +247,31 @@ func connerrScenario(s *Sim, params map[string]string) {
 	framing := ""
 	if fault < len(ceCodes) {
 		code = ceCodes[fault]
-		desc += fmt.Sprintf(" answered with error code %d", code)
+		desc += fmt.Sprintf(" answered with error code %d in error field #%d", code, field)
 	} else {
 		framing = ceFraming[fault-len(ceCodes)]
 		desc += " hit by framing fault " + framing
 	}
 	desc += ", then " + ceOpNames[follow]
 	fired := false
+	notApplicable := framing != "" && field == 1 // framing faults have no field dimension
 	cl.Mutate = func(r *Req, body rc.Msg) rc.Msg {
 		if armed && !fired && framing == "" && r.Hdr.APIKey == api {
 			fired = true
-			setErrorCode(api, body, code)
-			s.Count("fault:error-code")
+			if setErrorCode(api, r.Hdr.APIVersion, body, code, field) {
+				s.Count("fault:error-code")
+			} else {
+				notApplicable = true
+			}
 		}
 		return body
 	}
 	cl.MutateFrame = func(r *Req, frame []byte) []byte {
 		if armed && !fired && framing != "" && r.Hdr.APIKey == api {
 			fired = true
+			if field == 1 {
+				return frame // framing faults have no error-field dimension: plain exchange
+			}
 			s.Count("fault:" + framing)
 			f := append([]byte(nil), frame...)
 			switch framing {
@@ -286,9 +322,20 @@ func connerrScenario(s *Sim, params map[string]string) {
 			s.Fail("SIM", "connerr-not-fired", "%s: fault did not fire", desc)
 			return
 		}
+		if notApplicable {
+			// no such error field for this api/version: an ordinary exchange
+			if errA != nil {
+				s.Fail("C11", "R1-plain-exchange-failed", "%s: no fault applicable, yet the operation failed with %v", desc, errA)
+			}
+			s.Count("case-not-applicable")
+			return
+		}
 		if framing == "" {
 			var ke kafka.Error
-			if (op == 6 || op == 7) && errA == nil {
+			if field == 1 && api == 3 && errA == nil {
+				// partition-level metadata errors are not surfaced by ReadPartitions / Brokers / Controller
+				s.Count("error-code-not-applicable")
+			} else if (op == 6 || op == 7) && errA == nil {
 				// Brokers / Controller do not look at topic-level errors: the
 				// injected code is not addressed to them
 				s.Count("error-code-not-applicable")
